@@ -1,7 +1,7 @@
 INIT Init
 NEXT Next
 CONSTANTS MaxDepth = 2
- LeafMode = "plain"
- WithPairs = TRUE
+ LeafMode = "mapped"
+ WithPairs = FALSE
 INVARIANT Emit
 CHECK_DEADLOCK FALSE
